@@ -125,7 +125,7 @@ package mqtt
 
 // write: the packet goes to the connection found in the write semaphore, or nowhere.
 //@ func mqtt.(*Client).write -> err
-//@ ensures[C14] err != nil ==> !denied(err)
+//@ ensures[C14] err != nil ==> !denied(err) && !Is(err, ErrMax)
 //@ ensures !closed(c.onlineSig) && (old(len(c.onlineSig)) == 1 ==> len(c.onlineSig) == 1 && qat(c.onlineSig, 0) == old(qat(c.onlineSig, 0)))
 //@ requires c.writeSem != nil && cap(c.writeSem) == 1 && c.onlineSig != nil && !closed(c.onlineSig) && cap(c.onlineSig) == 1 && c.ctx != nil
 //@ requires closed(c.writeSem) ==> len(c.writeSem) == 0
@@ -768,3 +768,56 @@ package mqtt
 //@ ensures[C09,C14] (err != nil && denied(err)) ==> exchange == nil && forall(k, wire_len(k) == old(wire_len(k))) && forall(k, st_has(c.persistence, k) == old(st_has(c.persistence, k))) && len(c.exactlyOnce.queue) == old(len(c.exactlyOnce.queue))
 //@ ensures[C09] len(topic) == 0 || len(topic) > 65535 || !utf8ok(arr(topic), off(topic), len(topic)) || hasnul(arr(topic), off(topic), len(topic)) || pubrem(len(topic), len(message), 1) > 268435455 ==> err != nil && denied(err)
 //@ ensures[C14,C17] err != nil ==> exchange == nil && len(c.exactlyOnce.queue) == old(len(c.exactlyOnce.queue)) && forall(k, wire_len(k) == old(wire_len(k)))
+
+// SUBSCRIBE and UNSUBSCRIBE requests: denied arguments leave no trace; the packet that reaches write
+// has the header, the remaining length of its content, and the identifier of the slot just taken; the
+// slot is released again on every way out that is not the broker's answer.
+//@ pred topicok(s): len(s) > 0 && len(s) <= 65535 && utf8ok(arr(s), off(s), len(s)) && !hasnul(arr(s), off(s), len(s))
+//@ func mqtt.(*Client).subscribeLevel -> err
+//@ requires writable(c) && c.perPacketID != nil
+//@ loop[reveal=flatlen_] 1: invariant size == 2 + 3*len(topicFilters) + strslenk(topicFilters, rangeindex + 1) && strslenk(topicFilters, rangeindex + 1) <= 65535 * (rangeindex + 1)
+//@ loop 1: invariant forall(i, 0, rangeindex + 1, topicok(topicFilters[i]))
+//@ recvinv done(v): !denied(v) && !Is(v, ErrMax)
+//@ loop 2: unroll 4
+//@ loop 3: modifies packet, elems(packet)
+//@ loop[reveal=flatlen_] 3: invariant len(packet) == 3 + vlen(size) + 3*(rangeindex + 1) + strslenk(topicFilters, rangeindex + 1)
+//@ loop 3: invariant packet[0] == 130 && packet[1+vlen(size)]*256 + packet[2+vlen(size)] == packetID
+//@ loop 3: invariant forall(k, 0, vlen(size), packet[1+k] == vbyte(size, k))
+//@ at[C11,C17] call Errorf#3: assert forall(k, has(c.perPacketID, k) == old(has(c.perPacketID, k)))
+//@ at[C09,C11,C17,reveal=flatlen_] call write#1: assert p[0] == 130 && len(p) == 1 + vlen(size) + size && forall(k, 0, vlen(size), p[1+k] == vbyte(size, k)) && p[1+vlen(size)]*256 + p[2+vlen(size)] == packetID && has(c.perPacketID, packetID) && forall(d, d == packetID ==> !old(has(c.perPacketID, d))) && packetID / 8192 == 3
+//@ at[C11,C17] call Errorf#4: assert !has(c.perPacketID, packetID) && forall(k, k != packetID ==> has(c.perPacketID, k) == old(has(c.perPacketID, k)))
+//@ at[C11,C17] call Errorf#5: assert !has(c.perPacketID, packetID) && forall(k, k != packetID ==> has(c.perPacketID, k) == old(has(c.perPacketID, k)))
+//@ at[C11,C17] call Errorf#6: assert !has(c.perPacketID, packetID) && forall(k, k != packetID ==> has(c.perPacketID, k) == old(has(c.perPacketID, k)))
+//@ ensures[C09,C14,reveal=flatlen_] (err != nil && denied(err)) == (len(topicFilters) == 0 || exists(i, 0, len(topicFilters), !topicok(topicFilters[i])) || 2 + 3*len(topicFilters) + strslen(topicFilters) > 268435455)
+//@ ensures[C09,C14] err != nil && denied(err) ==> forall(k, wire_len(k) == old(wire_len(k))) && forall(k, has(c.perPacketID, k) == old(has(c.perPacketID, k))) && len(c.writeSem) == old(len(c.writeSem))
+//@ ensures[C14] err != nil && Is(err, ErrMax) ==> forall(k, wire_len(k) == old(wire_len(k))) && forall(k, has(c.perPacketID, k) == old(has(c.perPacketID, k)))
+
+//@ func mqtt.(*Client).Unsubscribe -> err
+//@ requires writable(c) && c.perPacketID != nil
+//@ recvinv done(v): !denied(v) && !Is(v, ErrMax)
+//@ loop[reveal=flatlen_] 1: invariant size == 2 + 2*len(topicFilters) + strslenk(topicFilters, rangeindex + 1) && strslenk(topicFilters, rangeindex + 1) <= 65535 * (rangeindex + 1)
+//@ loop 1: invariant forall(i, 0, rangeindex + 1, topicok(topicFilters[i]))
+//@ loop 2: unroll 4
+//@ loop 3: modifies packet, elems(packet)
+//@ loop[reveal=flatlen_] 3: invariant len(packet) == 3 + vlen(size) + 2*(rangeindex + 1) + strslenk(topicFilters, rangeindex + 1)
+//@ loop 3: invariant packet[0] == 162 && packet[1+vlen(size)]*256 + packet[2+vlen(size)] == packetID
+//@ loop 3: invariant forall(k, 0, vlen(size), packet[1+k] == vbyte(size, k))
+//@ at[C11,C17] call Errorf#3: assert forall(k, has(c.perPacketID, k) == old(has(c.perPacketID, k)))
+//@ at[C09,C11,C17,reveal=flatlen_] call write#1: assert p[0] == 162 && len(p) == 1 + vlen(size) + size && forall(k, 0, vlen(size), p[1+k] == vbyte(size, k)) && p[1+vlen(size)]*256 + p[2+vlen(size)] == packetID && has(c.perPacketID, packetID) && forall(d, d == packetID ==> !old(has(c.perPacketID, d))) && packetID / 8192 == 2
+//@ at[C11,C17] call Errorf#4: assert !has(c.perPacketID, packetID) && forall(k, k != packetID ==> has(c.perPacketID, k) == old(has(c.perPacketID, k)))
+//@ at[C11,C17] call Errorf#5: assert !has(c.perPacketID, packetID) && forall(k, k != packetID ==> has(c.perPacketID, k) == old(has(c.perPacketID, k)))
+//@ at[C11,C17] call Errorf#6: assert !has(c.perPacketID, packetID) && forall(k, k != packetID ==> has(c.perPacketID, k) == old(has(c.perPacketID, k)))
+//@ ensures[C09,C14,reveal=flatlen_] (err != nil && denied(err)) == (len(topicFilters) == 0 || exists(i, 0, len(topicFilters), !topicok(topicFilters[i])) || 2 + 2*len(topicFilters) + strslen(topicFilters) > 268435455)
+//@ ensures[C09,C14] err != nil && denied(err) ==> forall(k, wire_len(k) == old(wire_len(k))) && forall(k, has(c.perPacketID, k) == old(has(c.perPacketID, k))) && len(c.writeSem) == old(len(c.writeSem))
+//@ ensures[C14] err != nil && Is(err, ErrMax) ==> forall(k, wire_len(k) == old(wire_len(k))) && forall(k, has(c.perPacketID, k) == old(has(c.perPacketID, k)))
+
+// the three subscribe entry points differ in the maximum QoS they ask for
+//@ func mqtt.(*Client).Subscribe -> err
+//@ requires writable(c) && c.perPacketID != nil
+//@ at[C09] call subscribeLevel#1: assert levelMax == 2
+//@ func mqtt.(*Client).SubscribeLimitAtMostOnce -> err
+//@ requires writable(c) && c.perPacketID != nil
+//@ at[C09] call subscribeLevel#1: assert levelMax == 0
+//@ func mqtt.(*Client).SubscribeLimitAtLeastOnce -> err
+//@ requires writable(c) && c.perPacketID != nil
+//@ at[C09] call subscribeLevel#1: assert levelMax == 1
